@@ -50,7 +50,7 @@ func (sc scenario) body(o *obs) func() {
 						return
 					}
 					p := fmt.Sprint(msg.Data)
-					o.seen[p]++
+					vrt.Own(func() { o.seen[p]++ })
 					msg.Reply(rc.NewMessage("", msg.Ty, "echo:"+p))
 				}
 			})
@@ -62,29 +62,31 @@ func (sc scenario) body(o *obs) func() {
 				for k := 0; k < sc.rounds; k++ {
 					topic := string(rune('A' + (i+k)%sc.topics))
 					payload := fmt.Sprintf("r%d.%d", i, k)
-					closedBefore := o.closed && (sc.closer != "client" || topic == "A")
+					var wasClosed bool
+					vrt.Own(func() { wasClosed = o.closed })
+					closedBefore := wasClosed && (sc.closer != "client" || topic == "A")
 					msg := c.NewMessage(topic, int64(100+i), payload)
 					err := c.Send(msg, true)
 					if err != nil {
-						o.outcomes["send-error"] = true
+						vrt.Own(func() { o.outcomes["send-error"] = true })
 						continue
 					}
 					if closedBefore {
 						// a send that started after the close returned may only be accepted if the wait then fails
-						o.outcomes["send-accepted-after-close"] = true
+						vrt.Own(func() { o.outcomes["send-accepted-after-close"] = true })
 					}
 					resp, err := c.Wait(msg)
 					if err != nil {
-						o.outcomes["wait-error"] = true
+						vrt.Own(func() { o.outcomes["wait-error"] = true })
 						continue
 					}
 					if closedBefore {
-						o.bad = append(o.bad, fmt.Sprintf("request %s was sent after the close had returned and still got a reply", payload))
+						vrt.Own(func() { o.bad = append(o.bad, fmt.Sprintf("request %s was sent after the close had returned and still got a reply", payload)) })
 					}
 					if got := fmt.Sprint(resp.GetData()); got != "echo:"+payload {
-						o.bad = append(o.bad, fmt.Sprintf("request %s received reply %q", payload, got))
+						vrt.Own(func() { o.bad = append(o.bad, fmt.Sprintf("request %s received reply %q", payload, got)) })
 					}
-					o.outcomes["reply-ok"] = true
+					vrt.Own(func() { o.outcomes["reply-ok"] = true })
 					if sc.free {
 						c.FreeMessage(msg, resp)
 					}
@@ -93,15 +95,15 @@ func (sc scenario) body(o *obs) func() {
 		}
 		switch sc.closer {
 		case "client":
-			vrt.GoNamed("closer", func() { rclients[0].Close(); o.closed = true })
+			vrt.GoNamed("closer", func() { rclients[0].Close(); vrt.Own(func() { o.closed = true }) })
 		case "queue":
-			vrt.GoNamed("closer", func() { q.Close(); o.closed = true })
+			vrt.GoNamed("closer", func() { q.Close(); vrt.Own(func() { o.closed = true }) })
 		case "queue2":
-			vrt.GoNamed("closer", func() { q.Close(); o.closed = true })
+			vrt.GoNamed("closer", func() { q.Close(); vrt.Own(func() { o.closed = true }) })
 			vrt.GoNamed("closer2", func() { q.Close() })
 		case "clientqueue":
 			vrt.GoNamed("closer", func() { rclients[0].Close() })
-			vrt.GoNamed("closer2", func() { q.Close(); o.closed = true })
+			vrt.GoNamed("closer2", func() { q.Close(); vrt.Own(func() { o.closed = true }) })
 		}
 	}
 }
